@@ -73,6 +73,15 @@ type replayFile struct {
 	Original sizeT    `json:"original"`
 	Minimal  sizeT    `json:"minimised"`
 	Notes    []string `json:"notes,omitempty"`
+	// History is set when the violation depends on state the checked code keeps
+	// between runs of one worker process (a package-level cache or pool): the
+	// file then replays that worker's whole run sequence up to RunIndex.
+	History *historyT `json:"history,omitempty"`
+}
+
+type historyT struct {
+	From   int `json:"from"`
+	Stride int `json:"stride"`
 }
 
 type expectT struct {
@@ -220,6 +229,18 @@ func TestWorker(t *testing.T) {
 		}
 		curIdx = rf.RunIndex
 		t0 := time.Now()
+		if rf.History != nil {
+			var res *simrt.Result
+			var env *Env
+			for idx := rf.History.From; idx <= rf.RunIndex; idx += rf.History.Stride {
+				curIdx = idx
+				res, env = runOnce(t, w, rf.Property, rf.Tier, simrt.Config{Seed: mixSeed(rf.Seed, idx, w.Name, rf.Property), Trace: idx == rf.RunIndex, Strategy: -1})
+			}
+			r := mkRec(rf.RunIndex, rf.Seed, res, env, time.Since(t0))
+			r.Trace = res.Trace
+			emit(r)
+			return
+		}
 		res, env := runOnce(t, w, rf.Property, rf.Tier, simrt.Config{Seed: 1, Replay: true, PlanVec: rf.Plan, RunVec: rf.Choices, Trace: true, Strategy: -1})
 		r := mkRec(rf.RunIndex, rf.Seed, res, env, time.Since(t0))
 		r.Trace = res.Trace
@@ -286,6 +307,28 @@ func TestWorker(t *testing.T) {
 					r.Replay = name
 				}
 				r.Msg = final.Msg
+			}
+		}
+		if strings.HasPrefix(r.Reconfirm, "NOT") && *fRepDir != "" {
+			// not reproducible on its own: it may depend on what earlier runs of
+			// this process left behind in the checked code.  The driver replays
+			// the whole sequence in a fresh process before it believes it.
+			rf := replayFile{
+				Property: *fProp, World: w.Name, Class: res.Class, Seed: *fSeed, RunIndex: idx, Tier: *fTier,
+				Expect:  expectT{Violation: firstLine(res.Msg), LogHash: fmt.Sprintf("%016x", res.LogHash), SchedHash: fmt.Sprintf("%016x", res.SchedHash)},
+				History: &historyT{From: *fFrom, Stride: *fStride},
+				Notes: []string{"this violation does not reproduce from its own choice vectors alone: the checked code keeps state between runs (package-level variable). The file replays the worker's run sequence from run " +
+					fmt.Sprint(*fFrom) + " in steps of " + fmt.Sprint(*fStride) + " up to run " + fmt.Sprint(idx) + ", in a fresh process.", "violation: " + res.Msg},
+			}
+			if env != nil {
+				rf.Notes = append(rf.Notes, env.Notes...)
+			}
+			os.MkdirAll(*fRepDir, 0o755)
+			name := fmt.Sprintf("%s/%s-%d-%d.history.json", *fRepDir, sanitize(res.Class), *fSeed, idx)
+			jb, _ := json.MarshalIndent(rf, "", " ")
+			if err := os.WriteFile(name, jb, 0o644); err == nil {
+				r.Replay = name
+				r.Reconfirm = "history: " + r.Reconfirm
 			}
 		}
 		emit(r)
